@@ -355,7 +355,14 @@ func checkC18Direction(w *World, r *Report) {
 		ru.Check("iterutil."+name, w.Pos(fn.Pos()), "searches the separator with strings."+want, found[want] && !found[other], fmt.Sprint(found))
 	}
 	// single header: last instance
-	lh := w.FuncIn(cp, "lastHeader")
+	lh := w.TryFuncIn(cp, "lastHeader")
+	if lh == nil {
+		// the helper may have been inlined into its only caller
+		lh = w.TryMethodIn(cp, "SingleIPHeader", "ClientIP")
+	}
+	if lh == nil {
+		anchorFail("function clientip.lastHeader or method SingleIPHeader.ClientIP")
+	}
 	okLast := false
 	eachInstr(lh, func(in ssa.Instruction) {
 		if ia, ok := in.(*ssa.IndexAddr); ok {
